@@ -493,6 +493,7 @@ func (s *Scope) provide(ctor interface{}, opts provideOptions) (err error) {
 		s.providers[k] = append(s.providers[k], n)
 	}
 
+	targetScope := s
 	for _, s := range allScopes {
 		s.isVerifiedAcyclic = false
 		if s.deferAcyclicVerification {
@@ -503,7 +504,7 @@ func (s *Scope) provide(ctor interface{}, opts provideOptions) (err error) {
 			// the providers map back to what it was before this node was
 			// introduced.
 			for k, ops := range oldProviders {
-				s.providers[k] = ops
+				targetScope.providers[k] = ops
 			}
 
 			return newErrInvalidInput("this function introduces a cycle", s.cycleDetectedError(cycle))
